@@ -284,3 +284,77 @@ def constant_bound_guards(fn, bb, local):
                     if {(o.kind, o.bb, o.arg, o.idx) for o in flow.origins(fn, x)} & roots:
                         out.append((sb, cd.rv["op"], y["c"].get("named") or y["c"].get("int")))
     return out
+
+
+def leaf_roots(fn, op, depth=0):
+    """leaf origins of an arithmetic expression (bins expanded into their operands)"""
+    out = set()
+    for o in flow.origins(fn, op):
+        if o.kind == "bin" and depth < 4:
+            out |= leaf_roots(fn, o.rv["a"], depth + 1) | leaf_roots(fn, o.rv["b"], depth + 1)
+        elif o.kind == "const":
+            continue
+        elif o.kind == "call" and depth < 4:
+            recv = frozenset(leaf_roots(fn, o.call.args[0], depth + 1)) if o.call.args else frozenset()
+            out.add(("call", o.call.name, recv))
+        else:
+            out.add((o.kind, o.bb, o.arg, o.idx))
+    return out
+
+
+def loop_count_hazards(fn):
+    """[(bb, description, end operand)] `a..b` ranges that are iterated and whose end is a template-controlled integer"""
+    t = tainted_locals(fn)
+    out = []
+    if not t:
+        return out
+    for bb, i, s in fn.all_stmts():
+        rv = s.get("rv", {})
+        if rv.get("k") != "agg" or rv.get("adt") not in ("core::ops::range::Range", "core::ops::range::RangeInclusive"):
+            continue
+        if "p" in s["place"]:
+            continue
+        # iterated? the range value reaches IntoIterator::into_iter / Iterator::next
+        dst = s["place"]["l"]
+        iterated = False
+        for c in fn.calls():
+            if c.name.endswith(("::into_iter", "Iterator>::next", "Iterator::next", "::rev", "::step_by", "::map", "::for_each")) and c.args:
+                if any(o.kind == "agg" and o.bb == bb for o in flow.origins(fn, c.args[0])):
+                    iterated = True
+        if not iterated:
+            continue
+        end = rv["ops"][1] if len(rv["ops"]) > 1 else None
+        if end is None:
+            continue
+        descs = []
+        p = op_place(end)
+        cands = []
+        if p is not None:
+            cands.append(p["l"])
+        for o in flow.origins(fn, end):
+            if o.kind == "bin":
+                for side in ("a", "b"):
+                    pp = op_place(o.rv[side])
+                    if pp is not None:
+                        cands.append(pp["l"])
+        for l in cands:
+            if l in t:
+                descs.append(t[l])
+        if descs:
+            out.append((bb, descs[0], end))
+    return out
+
+
+def bounded_by_constant(fn, bb, end):
+    """a dominating comparison of an expression with the same leaves as `end` against a constant"""
+    leaves = leaf_roots(fn, end)
+    for (sb, taken) in flow.guards(fn, bb):
+        cd = flow.cond_of(fn, sb)
+        if cd.kind == "bin" and cd.rv["op"] in ("Lt", "Le", "Gt", "Ge"):
+            a, b = cd.rv["a"], cd.rv["b"]
+            for x, y in ((a, b), (b, a)):
+                if "c" in y and "c" not in x:
+                    lx = leaf_roots(fn, x)
+                    if lx and lx <= leaves or (leaves and leaves <= lx):
+                        return "%s %s" % (cd.rv["op"], y["c"].get("named") or y["c"].get("int"))
+    return None
